@@ -27,11 +27,14 @@ REQUIRED = ["empty_notes", "interned_notes", "same_object_as_notes", "notes2", "
 
 
 def anchors():
-    from simfile.base import BaseSimfile
-    from simfile.ssc import SSCChart, SSCSimfile
+    from ..core import pick
 
-    return {"BaseSimfile.serialize": BaseSimfile.serialize, "SSCChart.serialize": SSCChart.serialize,
-            "SSCChart._parse": SSCChart._parse, "SSCSimfile._parse": SSCSimfile._parse}
+    return pick(
+        "simfile.base:BaseSimfile.serialize",
+        "simfile.ssc:SSCChart.serialize",
+        "simfile.ssc:SSCChart._parse",
+        "simfile.ssc:SSCSimfile._parse",
+    )
 
 
 def cases(ctx):
